@@ -344,7 +344,7 @@ def count_traces(path):
     n = 0
     with open(path) as f:
         for ln in f:
-            if '"ev":"Init"' in ln or '"ev":"Begin"' in ln:
+            if '"ev":"Init"' in ln or '"ev":"Begin"' in ln or '"ev":"SysInit"' in ln:
                 n += 1
     return n if n else (1 if count_lines(path) else 0)
 
@@ -363,7 +363,7 @@ def trace_of_line(path, k):
     framed = False
     with open(path) as f:
         for i, ln in enumerate(f, 1):
-            if '"ev":"Init"' in ln or '"ev":"Begin"' in ln:
+            if '"ev":"Init"' in ln or '"ev":"Begin"' in ln or '"ev":"SysInit"' in ln:
                 lines = []
                 framed = True
             lines.append(ln)
